@@ -213,6 +213,15 @@ theorem loaded_requirements_are_the_require_commands (np dp : Bytes) (ns : List 
       simp only [h', Bool.false_eq_true, ↓reduceIte]
       rw [ih]
       simp [h']
+/-- `getfilter` on a loaded set: an enabled filter gives its command, a disabled one what stands inside its `if false`
+    wrapper — decided by the command itself, not by anything remembered from before the reload -/
+theorem loaded_filter_body (np dp : Bytes) (ns : List Node) (cpt : Nat) (reqs : List Bytes)
+    (l : Loaded) (h : l ∈ (load np dp ns cpt reqs []).2) :
+    filterBody l = if isDisabled l.content then l.content.children.head? else some l.content := by
+  obtain ⟨k, _, he⟩ := loaded_filter_depends_on_its_own_command_only np dp ns cpt reqs l h
+  unfold filterBody
+  rw [he]
+  cases isDisabled l.content <;> simp
 end SetLevel
 
 /-- the lexer rules of `sievelib/parser.py` (names, order, patterns, flags, white space) are the modelled ones -/
